@@ -180,6 +180,7 @@ func (fr *frame) execInstr(ins ssa.Instruction, st *State, reach *string) bool {
 		if fr.top {
 			fr.ex.returnReach = append(fr.ex.returnReach, *reach)
 		}
+		fr.checkJoined(*reach)
 		fr.rets = append(fr.rets, retPoint{reach: *reach, vals: vals, st: st})
 		return true
 	case *ssa.Panic:
